@@ -453,3 +453,5 @@ COMPONENTS[0].split = split
 # GymABS cache model (Ctl/Adapters.v, ids 1505/1506): reset must leave the cache as on a new object
 from .gymabs import COMPONENT_GYMABS  # noqa: E402
 COMPONENTS.append(COMPONENT_GYMABS)
+from . import gen_FullReset
+COMPONENTS += gen_FullReset.COMPONENTS
